@@ -395,6 +395,14 @@ pub fn sites(tier: Tier) -> Vec<Site> {
             }));
         }
     }
+    // ... nor over longer histories on one thread: every sequence of up to 6 parses over five texts
+    {
+        let corpus: Vec<(String, String)> = ["0.7F", "0.7F12", "0.6R", "0.7A1234", "x"].iter().map(|s| (format!("version {s:?}"), s.to_string())).collect();
+        sites.push(crate::crossthread::history_site("C16", "parse-histories", "parse + print + compare with 0.7F", corpus, |s: &String| {
+            let base = GameVersion::from_str("0.7F").ok();
+            GameVersion::from_str(s).map(|v| (format!("{v:?}"), v.to_string(), base.as_ref().map(|b| v.cmp(b)))).map_err(|e| e.to_string())
+        }));
+    }
     // ... nor between threads
     {
         let corpus: Vec<(String, String)> = ["0.7F", "0.7F12", "0.6R", "0.7", "0.7A1", "7", "", "0.7f3", "0.04K", "123456789.5Z99", "0.7F0", "x"].iter().map(|s| (format!("version {s:?}"), s.to_string())).collect();
